@@ -4,6 +4,8 @@ CONSTANTS Vals, NF, DSETS, WINS, EMIT
 DS(k) == CASE k = 1 -> <<0, 90, 180, 270>> [] k = 2 -> <<180, 270, 0, 90>> [] k = 3 -> <<270, 180, 90, 0>> [] k = 4 -> <<10, 30, 50, 70>>
            [] k = 5 -> <<0, 60, 120, 180, 240, 300>> [] k = 6 -> <<45, 165, 285>> [] k = 7 -> <<90, 0, 270, 180>>
            [] k = 8 -> <<0, 72, 144, 216, 288>> [] k = 9 -> <<50, 10, 70, 30>>      \* partial circle stored unsorted
+           [] k = 10 -> <<-180, -90, 0, 90>>    \* full circle in the -180..180 convention
+           [] k = 11 -> <<90, 180, 270, 360>>   \* full circle with north labelled 360
 VARIABLES D, E, fw, fd, status, out
 vars == <<D, E, fw, fd, status, out>>
 Init == /\ \E k \in DSETS : D = DS(k)
